@@ -20,14 +20,16 @@ Hypothesis Wc : wf_comp c.
 (* user selections carry one character per covered symbol (they are dictionary phrases for the
    range, see EditorInv) *)
 Hypothesis sel_len : Forall (fun s => length (itext s) = ie s - ib s) (selections c).
-(* ... and cover syllables only (the editor offers phrase candidates for syllable ranges) *)
-Hypothesis sel_syl : forall sel k, In sel (selections c) -> ib sel <= k < ie sel ->
-  exists s, nth_error (symbols c) k = Some (SymSyl s).
 (* C03 quantifies over dictionaries with at least one word per syllable: every syllable of the
    buffer has a word under the engine's lookup strategy (then the spelled fallback of
    find_best_phrase is never taken; without it a fallback edge carries the spelling, which has
    more than one character) *)
 Hypothesis has_word : forall s, In (SymSyl s) (symbols c) -> lookup [SymSyl s] <> [].
+
+(* ... and cover syllables only (the editor offers phrase candidates for syllable ranges): part of wf_comp *)
+Lemma sel_syl : forall sel k, In sel (selections c) -> ib sel <= k < ie sel ->
+  exists s, nth_error (symbols c) k = Some (SymSyl s).
+Proof. intros sel k Hs Hk. destruct Wc as [_ _ _ Wk]. destruct (Wk sel Hs) as (K1 & _). exact (K1 k Hk). Qed.
 
 Lemma text_eqb_eq a b : text_eqb a b = true <-> a = b.
 Proof. apply list_eqb_N_spec. Qed.
